@@ -227,7 +227,34 @@ theorem decTy_ok_step (S : Schema) (f : Nat) (hF : DecFieldsOk S f) (hE : DecEle
       exact ⟨getBool_suffix h1, by simp [encTy]⟩
   | trueFlag => simp [decTy] at h
   | flags => simp [decTy] at h
-  | generic => simp [decTy] at h
+  | generic =>
+    simp only [decTy] at h
+    cases hg : S.generic with
+    | none => simp [hg] at h
+    | some c =>
+      simp only [hg] at h
+      cases h3 : S.ctors[c]? with
+      | none => simp [h3] at h
+      | some ct =>
+        simp only [h3] at h
+        cases hid : ct.id with
+        | none => simp [hid] at h
+        | some id =>
+          simp only [hid] at h
+          cases h1 : consumeID id b with
+          | error e => simp [h1] at h
+          | ok p =>
+            obtain ⟨u, r1⟩ := p
+            simp only [h1] at h
+            cases h4 : decFields S f [] ct.fields r1 with
+            | error e => simp [h4] at h
+            | ok q =>
+              obtain ⟨fs, r2⟩ := q
+              simp only [h4] at h
+              injection h with h; injection h with h5 h6; subst h5 h6
+              obtain ⟨hs, he⟩ := hF [] ct.fields r1 fs r2 h4
+              obtain ⟨e, he'⟩ := isSome_some he
+              exact ⟨hs.trans (consumeID_suffix h1), by simp [encTy, hg, h3, hid, he']⟩
   | boxed i =>
     simp only [decTy] at h
     cases h1 : getU32 b with
